@@ -788,11 +788,18 @@ static char *detect_include_guard(Token *tok) {
       continue;
     }
 
-    if (equal(tok->next, "endif") && tok->next->next->kind == TK_EOF)
-      return macro;
+    // The first #endif at this level closes the guard; it must be
+    // the last thing in the file.
+    if (equal(tok->next, "endif"))
+      return tok->next->next->kind == TK_EOF ? macro : NULL;
 
-    if (equal(tok, "if") || equal(tok, "ifdef") || equal(tok, "ifndef"))
-      tok = skip_cond_incl(tok->next);
+    // If the guard has an #else or #elif part, re-including the file
+    // is not a no-op even if the macro is defined.
+    if (equal(tok->next, "else") || equal(tok->next, "elif"))
+      return NULL;
+
+    if (equal(tok->next, "if") || equal(tok->next, "ifdef") || equal(tok->next, "ifndef"))
+      tok = skip_cond_incl2(tok->next->next);
     else
       tok = tok->next;
   }
